@@ -530,6 +530,16 @@ impl ASN1Type {
                                 ))),
                             );
                         }
+                        // `NULL` is lexed as a value, but for an ungoverned parameter it is the NULL type
+                        (Parameter::ValueParameter(ASN1Value::Null), ParameterGovernor::None) => {
+                            impl_tlds.insert(
+                                dummy_reference.clone(),
+                                ToplevelDefinition::Type(ToplevelTypeDefinition::from((
+                                    dummy_reference.as_str(),
+                                    ASN1Type::Null,
+                                ))),
+                            );
+                        }
                         (Parameter::InformationObjectParameter(_), _) => todo!(),
                         (Parameter::ObjectSetParameter(o), ParameterGovernor::Class(c)) => {
                             match &o.values.first() {
